@@ -329,7 +329,7 @@ def execute(scen):
             if mv is None or mv.get_element("T1").value != sent_vals[-1]:
                 viol.append({"clause": "C18.served", "detail": f"the library client did not receive the last device update; {ctx}", "facts": facts})
         if not viol and scen["tty"]:
-            out = stack.stdout_file.text
+            out = stack.stdout_file.flushed_text
             upto = len(sent_text) if tty_dead_at[0] is None else tty_dead_at[0]
             for i, val in enumerate(sent_text[:upto]):
                 if _count(out, f">{val}<") != 1:
